@@ -45,6 +45,9 @@ pub struct Hooks {
     pub clock_ns: Option<Box<dyn Fn() -> u64>>,
     /// Called at named scheduling points (before hooked atomics, explicit yield points).
     pub yield_point: Option<Box<dyn Fn(&'static str)>>,
+    /// Receives the closures spawned inside a seamed `std::thread::scope` and must run
+    /// every one of them to completion (as simulated threads) before returning.
+    pub run_scoped: Option<Box<dyn for<'a> Fn(Vec<Box<dyn FnOnce() + Send + 'a>>)>>,
 }
 
 thread_local! {
@@ -602,6 +605,81 @@ pub mod fake_std {
             fn into_iter(self) -> Self::IntoIter {
                 self.0.into_iter()
             }
+        }
+    }
+
+    /// `std::thread` whose `scope` hands the spawned closures to the simulator.
+    pub mod thread {
+        pub use ::std::thread::*;
+        use ::std::cell::RefCell;
+
+        enum Mode<'scope, 'env> {
+            Real(&'scope ::std::thread::Scope<'scope, 'env>),
+            Deferred(RefCell<Vec<Box<dyn FnOnce() + Send + 'scope>>>),
+        }
+
+        /// Stand-in for `std::thread::Scope`: real scoped threads without a simulator,
+        /// deferred closures with one.
+        pub struct Scope<'scope, 'env: 'scope> {
+            mode: Mode<'scope, 'env>,
+        }
+
+        impl<'scope, 'env> Scope<'scope, 'env> {
+            /// Spawns a scoped thread (the handle is not exposed: the seamed code only
+            /// relies on the implicit join at the end of the scope).
+            pub fn spawn<F>(&'scope self, f: F)
+            where
+                F: FnOnce() + Send + 'scope,
+            {
+                match &self.mode {
+                    Mode::Real(s) => {
+                        s.spawn(f);
+                    }
+                    Mode::Deferred(v) => v.borrow_mut().push(Box::new(f)),
+                }
+            }
+        }
+
+        /// Like `std::thread::scope`. Under a simulator the spawned closures start when the
+        /// scope body returns (the seamed callers do nothing between spawning and the end
+        /// of the scope that depends on a worker having started).
+        pub fn scope<'env, F, T>(f: F) -> T
+        where
+            F: for<'scope> FnOnce(&'scope Scope<'scope, 'env>) -> T,
+        {
+            let simulated = super::super::active()
+                && super::super::HOOKS.with(|h| h.borrow().as_ref().is_some_and(|h| h.run_scoped.is_some()));
+            if !simulated {
+                return ::std::thread::scope(|s| {
+                    let sc = Scope { mode: Mode::Real(s) };
+                    // SAFETY of lifetimes: `sc` lives as long as the std scope body
+                    let sc_ref: &Scope<'_, 'env> = &sc;
+                    #[allow(unsafe_code)]
+                    let sc_ref: &Scope<'_, 'env> = unsafe { &*(sc_ref as *const Scope<'_, 'env>) };
+                    f(sc_ref)
+                });
+            }
+            let sc = Scope { mode: Mode::Deferred(RefCell::new(Vec::new())) };
+            #[allow(unsafe_code)]
+            let sc_ref: &Scope<'_, 'env> = unsafe { &*(&sc as *const Scope<'_, 'env>) };
+            let out = f(sc_ref);
+            let jobs = match &sc.mode {
+                Mode::Deferred(v) => v.take(),
+                Mode::Real(_) => Vec::new(),
+            };
+            let run: Option<*const (dyn for<'a> Fn(Vec<Box<dyn FnOnce() + Send + 'a>>))> =
+                super::super::HOOKS.with(|h| h.borrow().as_ref().and_then(|h| h.run_scoped.as_ref().map(|b| &**b as *const _)));
+            if let Some(run) = run {
+                #[allow(unsafe_code)]
+                unsafe {
+                    (*run)(jobs);
+                }
+            } else {
+                for j in jobs {
+                    j();
+                }
+            }
+            out
         }
     }
 
